@@ -1,6 +1,6 @@
 // C19 — simplex parametrisations always yield a probability vector and invert exactly
 // VF-VARIANT: san
-// VF-RULE: E2 product spaces, every index executed. (1) theta-lattice: method x zero-allowing flag x dimension x every theta vector of the lattice {1e-9,1/4,1/2,3/4,1-1e-9}^(n-1) (n<=7), and for 8<=n<=33 every vector that deviates from one of three base vectors (theta==1/2, theta==1/4, theta_i=1/(n-i)) in at most D coordinates to any lattice value; each is pushed through all three update entry points, copied (constructor, clone, assignment) and mutated, and fed back through both probability entry points. (2) probability vectors: every composition of 8 into n positive parts (/8, n<=8) and 12 constructed families with entries down to 1e-9 for every n in 1..33, through the constructor, the frequency setter on a fresh and on a used object, plain and ordered variant. (3) injectivity: per method and n<=7 the images of the whole theta lattice are sorted and scanned for duplicates. (4) the two other users of the global-ratio coding that keep a copy of the vector next to the parameters: every operation history up to depth 4 (thorough 5) over 9 operations on a FullHmmTransitionMatrix (two caching readers, frequency setter with three matrices, two parameter update routes, copy, assignment from another matrix; n=2,3) and over 9 operations on a MixtureOfDiscreteDistributions of constants (five parameter update routes incl. a zero theta, three namespaces, copy; n=2,3); after every operation the rows / weights the getters return are compared with the image of the parameters the object reports. (5) every history up to depth 3 (thorough 4) over 9 operations on one Simplex / OrderedSimplex object (method x zero-allowing x n=2..4): single-parameter and list updates (a foreign parameter first in the list), the frequency setter with two admissible vectors and two vectors it refuses (a zero entry, a sum of 1.1), copy; after every operation, refused or not, the probabilities must be the image of the reported parameters (fresh object as reference) and the ordered values the tail sums of the probabilities. A case is non-trivial when n>=2.
+// VF-RULE: E2 product spaces, every index executed. (1) theta-lattice: method x zero-allowing flag x dimension x every theta vector of the lattice {1e-9,1/4,1/2,3/4,1-1e-9}^(n-1) (n<=7), and for 8<=n<=33 every vector that deviates from one of three base vectors (theta==1/2, theta==1/4, theta_i=1/(n-i)) in at most D coordinates to any lattice value; each is pushed through all three update entry points, copied (constructor, clone, assignment) and mutated, and fed back through both probability entry points. (2) probability vectors: every composition of 8 into n positive parts (/8, n<=8) and 12 constructed families with entries down to 1e-9 for every n in 1..33, through the constructor, the frequency setter on a fresh and on a used object, plain and ordered variant. (3) injectivity: per method and n<=7 the images of the whole theta lattice are sorted and scanned for duplicates. (4) the two other users of the global-ratio coding that keep a copy of the vector next to the parameters: every operation history up to depth 4 (thorough 5) over 10 operations on a FullHmmTransitionMatrix (two caching readers, frequency setter with three matrices, two parameter update routes, copy, assignment from another matrix, namespace change; n=2,3) and over 9 operations on a MixtureOfDiscreteDistributions of constants (five parameter update routes incl. a zero theta, three namespaces, copy; n=2,3); after every operation the rows / weights the getters return are compared with the image of the parameters the object reports. (5) every history up to depth 3 (thorough 4) over 9 operations on one Simplex / OrderedSimplex object (method x zero-allowing x n=2..4): single-parameter and list updates (a foreign parameter first in the list), the frequency setter with two admissible vectors and two vectors it refuses (a zero entry, a sum of 1.1), copy; after every operation, refused or not, the probabilities must be the image of the reported parameters (fresh object as reference) and the ordered values the tail sums of the probabilities. A case is non-trivial when n>=2.
 // VF-BOUND: theta in a 5-value lattice instead of (0,1); full lattice only for n<=7 (quick n<=6), beyond that at most D deviating coordinates (quick: D=2 for n<=9 and n in 15..17, D=1 otherwise; thorough: D=2 for every n<=33 and D=3 for n in {8,9,16}); probability vectors from dyadic compositions (n<=8) and 12 families per dimension instead of the whole simplex; all dimensions 1..33 are covered for the families and the deviation lattice; the histories of (4) are bounded in depth (4 / 5), in dimension (2, 3) and in the values written (listed in the harness)
 // VF-LEVEL: bounded-exhaustive check on the real classes: every listed method x dimension x lattice vector is executed; tolerances are forward-error bounds of the documented formulas evaluated in double, derived next to their use; nothing sampled
 // VF-ASSUME: IEEE double arithmetic with round-to-nearest;; the parameters of a simplex are stored as doubles, so a probability vector is 'returned unchanged to rounding' when it is within the forward error of rounding the parameters (this scales with p_i/p_(i+1) for the local-ratio method);; behaviour between lattice points is not observed
@@ -357,8 +357,8 @@ static Vd hrow(int n, int which, int i) {
   static const double R3[3][3][3] = {{{0.7, 0.2, 0.1}, {0.1, 0.8, 0.1}, {0.3, 0.3, 0.4}}, {{0.25, 0.25, 0.5}, {0.25, 0.25, 0.5}, {0.25, 0.25, 0.5}}, {{0.98, 0.01, 0.01}, {1e-6, 0.5, 0.5 - 1e-6}, {0.125, 0.75, 0.125}}};
   Vd r; for (int j = 0; j < n; ++j) r.push_back(n == 2 ? R2[which][i][j] : R3[which][i][j]); return r;
 }
-static const int HOPS = 9;
-static const char* HOPN[HOPS] = {"getPij", "getEquilibriumFrequencies", "set(A)", "set(B)", "set(C)", "setParameterValue(1.theta1=0.25)", "matchParametersValues(foreign, row2 thetas=0.6)", "copy", "assigned from another matrix holding B"};
+static const int HOPS = 10;
+static const char* HOPN[HOPS] = {"getPij", "getEquilibriumFrequencies", "set(A)", "set(B)", "set(C)", "setParameterValue(1.theta1=0.25)", "matchParametersValues(foreign, row2 thetas=0.6)", "copy", "assigned from another matrix holding B", "setNamespace(toggle X.)"};
 static void hmmHistory(int n, const std::vector<int>& ops, vf::Case& c) {
   std::string ctx = "FullHmmTransitionMatrix n=" + str(n) + " history:";
   try {
@@ -367,6 +367,7 @@ static void hmmHistory(int n, const std::vector<int>& ops, vf::Case& c) {
     std::vector<Vd> th(n, Vd());            // model: the thetas the object should report, row by row
     for (int i = 0; i < n; ++i) for (int j = 0; j + 1 < n; ++j) th[i].push_back(1.0 / (n - j));
     std::vector<Vd> given(n);               // rows last handed to the setter and not yet overridden by a parameter update
+    std::string ns;                         // current namespace
     for (int op : ops) {
       ctx += std::string(" ") + HOPN[op];
       bool readP = false, readE = false;
@@ -380,7 +381,7 @@ static void hmmHistory(int n, const std::vector<int>& ops, vf::Case& c) {
           c.site("FullHmmTransitionMatrix::setTransitionProbabilities"); T->setTransitionProbabilities(M);
           break; }
         case 5: c.site("FullHmmTransitionMatrix::setParameterValue"); T->setParameterValue("1.theta1", 0.25); th[0][0] = 0.25; given[0].clear(); break;
-        case 6: { ParameterList pl; pl.addParameter(Parameter("zz.other", 0.1)); for (int j = 0; j + 1 < n; ++j) { pl.addParameter(Parameter("2.theta" + str(j + 1), 0.6)); th[1][j] = 0.6; } given[1].clear();
+        case 6: { ParameterList pl; pl.addParameter(Parameter("zz.other", 0.1)); for (int j = 0; j + 1 < n; ++j) { pl.addParameter(Parameter(ns + "2.theta" + str(j + 1), 0.6)); th[1][j] = 0.6; } given[1].clear();
           c.site("FullHmmTransitionMatrix::matchParametersValues"); T->matchParametersValues(pl); break; }
         case 7: c.site("FullHmmTransitionMatrix::clone"); T.reset(T->clone()); break;
         case 8: {
@@ -388,8 +389,9 @@ static void hmmHistory(int n, const std::vector<int>& ops, vf::Case& c) {
           for (int i = 0; i < n; ++i) { Vd r = hrow(n, 1, i); given[i] = r; for (int j = 0; j < n; ++j) M(i, j) = r[j];
             double y = 1; for (int j = 0; j + 1 < n; ++j) { th[i][j] = r[j] / y; y -= r[j]; } }
           O.setTransitionProbabilities(M);
-          c.site("FullHmmTransitionMatrix::operator="); *T = O;
+          c.site("FullHmmTransitionMatrix::operator="); *T = O; ns = "";
           break; }
+        case 9: ns = ns.empty() ? "X." : ""; c.site("FullHmmTransitionMatrix::setNamespace"); T->setNamespace(ns); break;
       }
       // state audit: parameters, then the entry reader, then (for the two caching readers) the cached objects
       c.site("FullHmmTransitionMatrix::Pij");
